@@ -205,7 +205,7 @@ def edit_ops(types):
     for t in (a, b):
         for v in (0.2, 0.35):
             ops.append(['density', t, v])
-        for v in (1.0, 1.2):
+        for v in (1.0, 1.2) + ((1.25,) if t == b else ()):       # 1.25: contact distances that are not grid points (legal; System.check only warns)
             ops.append(['diameter', t, v])
     for v in (1.0, 1.5):
         ops.append(['kT', v])
